@@ -310,6 +310,9 @@ func TestVP_C11_Histories(t *testing.T) {
 			if it.Kind == "plain" && it.HasBody {
 				it.Chunked = rapid.Bool().Draw(t, "chunked")
 			}
+			if it.Method == "GET" && (it.Kind == "plain" || it.Kind == "timeout" || it.Kind == "close") && rapid.IntRange(0, 3).Draw(t, "head") == 0 {
+				it.Method = "HEAD"
+			}
 			items = append(items, it)
 			kindByID[fmt.Sprint(it.ID)] = it.Kind
 		}
@@ -373,8 +376,10 @@ func TestVP_C11_Histories(t *testing.T) {
 			var status int
 			var respHdr http.Header
 			var respBody []byte
+			consumed := 0
 			got := w.WaitOut(20*time.Second, func(out []byte) bool {
-				br := bufio.NewReader(bytes.NewReader(out[off:]))
+				src := bytes.NewReader(out[off:])
+				br := bufio.NewReader(src)
 				for {
 					rr, err := http.ReadResponse(br, &http.Request{Method: it.Method})
 					if err != nil {
@@ -388,14 +393,18 @@ func TestVP_C11_Histories(t *testing.T) {
 						continue
 					}
 					status, respHdr, respBody = rr.StatusCode, rr.Header, body
+					consumed = len(out[off:]) - src.Len() - br.Buffered()
 					return true
 				}
 			})
 			if !got {
 				t.Fatalf("request #%d (%s): no complete response within 20s; output %s", idx, it.Kind, vpQuote(w.Out()[off:], 300))
 			}
-			off = w.OutLen()
 			state := w.WaitIdleOrClosed(20 * time.Second)
+			if it.Kind != "hijack" && w.OutLen() != off+consumed {
+				t.Fatalf("request #%d (%s %s): %d stray bytes follow its response on the wire: %s", idx, it.Kind, it.Method, w.OutLen()-off-consumed, vpQuote(w.Out()[off+consumed:], 200))
+			}
+			off = w.OutLen()
 			run.mu.Lock()
 			snaps := append([]vpC11Snap(nil), run.snaps...)
 			run.mu.Unlock()
@@ -425,7 +434,7 @@ func TestVP_C11_Histories(t *testing.T) {
 				// the response must be this handler's own (or the timeout response), with nothing of other requests
 				id := fmt.Sprint(it.ID)
 				if it.Kind == "timeout" {
-					if status != 503 || string(respBody) != "timeout-"+id {
+					if status != 503 || (it.Method != "HEAD" && string(respBody) != "timeout-"+id) {
 						t.Fatalf("timeout request #%d: status %d body %q", idx, status, respBody)
 					}
 					if respHdr.Get("X-Resp-Id") != "" {
